@@ -30,7 +30,7 @@ LEVEL_NOTE = ("Trusted: Lean kernel + {propext, Classical.choice, Quot.sound}; t
               "is differential (sees E, U <= 3, dims <= 2, polynomial user functions, Dirichlet boundary conditions); "
               "jax pytree transposition / tree_map are modelled as sums over association lists, not verified; the "
               "argument order (t, x) is observed through residuals with different coefficients on t and x; "
-              "non-stationary normalisation, SPINNs, and per-unknown nested eq_params dictionaries together with a "
+              "SPINNs, and per-unknown nested eq_params dictionaries together with a "
               "parameter batch are outside the generated scope.")
 TECHNIQUE = ("Lean 4 proof (closed forms by induction over the lists of equations / unknowns, algebra over Q) + exact "
              "differential correspondence against the real system, single and plain losses")
@@ -111,7 +111,7 @@ def gen_cases(rng, tier):
         c = dict(kind=kind, d=rng.choice([1, 2]), m=rng.choice([1, 2]) if not quick else 1, keys=keys,
                  batched=None, B=rng.choice([2, 4]), obs=None, het=None, malformed=None, E=E, U=U,
                  same_names=rng.random() < 0.25,
-                 terms={"dyn": True, "ic": base != "statio", "boundary": base != "ode", "norm": base == "statio"})
+                 terms={"dyn": True, "ic": base != "statio", "boundary": base != "ode", "norm": base != "ode"})
         # per-unknown specifications: each unknown has its own functions; some have no condition at all
         pu = {}
         for i in range(U):
